@@ -191,7 +191,7 @@ impl Monitor for C19 {
         "cwv-direct"
     }
     fn histories(&self, tier: Tier) -> u64 {
-        tier.pick(400, 120_000)
+        tier.pick(1_200, 120_000)
     }
     fn mandatory(&self) -> Vec<&'static str> {
         vec![
